@@ -544,6 +544,18 @@ def remap_by_types(
 
                 scan_for_metadata(r.query_ast, add_md)
                 call_node = fixup_ast_from_modifications(r.query_ast, call_node)
+
+                # The nested operator may have rebuilt its lambda (e.g. a callback replaced the
+                # call that is the lambda's body): what it emits is what goes into the query.
+                new_args = getattr(r.query_ast, "args", [])
+                if (
+                    len(call_node.args) == 1
+                    and len(new_args) == 2
+                    and isinstance(new_args[1], ast.Lambda)
+                    and new_args[1] is not call_node.args[0]
+                ):
+                    call_node = copy.copy(call_node)
+                    call_node.args = [new_args[1]]
                 return call_node, Iterable[r.item_type]  # type: ignore
 
             return call_node, r
